@@ -51,6 +51,7 @@ class GeminiClient:
         tofu_db_path: Path | None = None,
         client_cert: Path | str | None = None,
         client_key: Path | str | None = None,
+        decode_text: bool = True,
     ):
         """Initialize the Gemini client.
 
@@ -69,8 +70,12 @@ class GeminiClient:
                 authentication with servers that require client certificates.
             client_key: Path to client private key file (PEM format). Required
                 if client_cert is provided.
+            decode_text: Decode text/* response bodies to str using the declared
+                charset (default). With False, bodies are always returned as the
+                raw bytes the server sent.
         """
         self.timeout = timeout
+        self.decode_text = decode_text
         self.max_redirects = max_redirects
         self.verify_ssl = verify_ssl
         self.trust_on_first_use = trust_on_first_use
@@ -183,7 +188,10 @@ class GeminiClient:
         # Per spec: "client SHOULD add trailing '/' for empty paths"
         # The request is only sent once the certificate has been verified (below)
         protocol = GeminiClientProtocol(
-            parsed.normalized, response_future, send_on_connect=False
+            parsed.normalized,
+            response_future,
+            send_on_connect=False,
+            decode_text=self.decode_text,
         )
 
         # Create connection using Protocol/Transport pattern
